@@ -25,6 +25,12 @@ def w(id, cfg):
 def B(x): return "true" if x else "false"
 DOTU = (False, True)
 
+def reneg(isdir):
+    what = "the root directory" if isdir else "a 300-byte file"
+    return [{"harness": "vxHRenegRead", "args": [B(u), B(isdir)], "files": ["api", "ref_wire", "kit_srv", "kit_net", "kit_fs", "reneg_read"], "preempt": 0, "free_switches": -1,
+             "reach": ["dir-read" if isdir else "file-read"],
+             "bounds": f"live Ufs connection through the receive/send loops, dotu={B(u)}: Tversion(128), second Tversion with msize in {{100,128,129,400,8192,9000}}, attach, open, Tread of {what} at offset 0 with the largest count the second Rversion's msize allows; deterministic schedule"} for u in DOTU]
+
 # ---------------- C14 (server part) ----------------
 def c14(L, maxc, wL, wN):
     runs = []
@@ -38,10 +44,10 @@ def c14(L, maxc, wL, wN):
         if wN > 1:
             runs.append({"harness": "vxH14Write", "args": [B(u), str(wL), "0"], "files": F("c14_data"), "reach": ["ok"],
                          "bounds": f"H14.srv write of 0 bytes, dotu={B(u)}"})
-    return runs
+    return runs + reneg(False)
 w("C14", {
  "quick": c14(8, 10, 2, 3),
- "thorough": c14(12, 14, 4, 4) + c14(0, 3, 0, 1) + c14(1, 3, 1, 2),
+ "thorough": c14(12, 14, 4, 4) + c14(0, 3, 0, 1)[:-2] + c14(1, 3, 1, 2)[:-2],
  "outside": ["the client half (H14.clnt: Clnt.Read/Write, File helpers) is a separate lemma", "files longer than 12 bytes / counts above 14 (the code's arithmetic does not depend on magnitude beyond the 32/64-bit edges, which are symbolic)",
              "counts >= 2^32-24, for which the generic layer's own guard wraps (C05/C06, finding F9)", "offsets >= 2^63 are not representable as a file offset: error or empty read are both accepted", "real disks, short reads by the kernel"],
  "assumptions": ["oracle: harness/ref_wire.go encodes the expected Rread/Rwrite packet from the reference slice file[off:min(off+count,L)]; the model's WriteAt applies data only when offset+len <= 16 (beyond that only the call arguments are compared)"],
@@ -60,8 +66,8 @@ def c15(kmax, T, snaps):
                          "bounds": f"H15.snap, dotu={B(u)}: offset-0 read of a model directory with 0..{k} entries (file/dir/symlink each, names of 1..{nl} symbolic bytes, symbolic perm/size/mtime/inode), stale previous snapshot, count any value 0..{100*k}"})
     return runs
 w("C15", {
- "quick": c15(4, 8, [(2, 2)]),
- "thorough": c15(4, 12, [(2, 3), (3, 1)]) + c15(6, 9, []),
+ "quick": c15(4, 8, [(2, 2)]) + reneg(True),
+ "thorough": c15(4, 12, [(2, 3), (3, 1)]) + c15(6, 9, []) + reneg(True),
  "outside": ["the client half (H15.clnt: File.Readdir) is a separate lemma", "offsets that do not follow the protocol rule (inside a record / past the end) are C06's panic-freedom question: vxH15Window with arb=true reproduces F7 there",
              "record sizes in H15.window are small integers (1..T), real records are >= 49 bytes: the window arithmetic is size-agnostic; H15.snap uses real records", "directories with more than 3 entries in H15.snap (the window step is inductive in the number of entries)"],
  "assumptions": ["induction: H15.snap establishes the snapshot invariant (direntends = record boundaries, strictly increasing, last = len(dirents)) and the window rules at offset 0; H15.window shows that one rule-following read from any valid snapshot returns whole records starting at the offset, does not change the snapshot, and is empty only at the end",
